@@ -22,6 +22,8 @@ for d in sorted(glob.glob(os.path.join(HERE, 'seeded', '*'))):
     json.dump(meta, open(mp, 'w'), indent=1)
     caught = [c for c, r in sorted(det.items()) if r['rc'] == 1]
     missed = [c for c, r in sorted(det.items()) if r['rc'] == 0]
+    if meta.get('obsolete_at_head'):
+        missed = ['(obsolete at HEAD, see meta.json)']
     what = meta['summary'].replace('\n', ' ').replace('|', '/')[:150]
     rows.append('| %s | %s | %s | %s | %s |' % (name, meta['breaks_property'],
                 ', '.join('%s (%s)' % (c, '/'.join(det[c]['formulas'][:3]) or 'rows') for c in caught) or '-',
